@@ -357,6 +357,10 @@ PROPS["C07"].setdefault("per_family", {})["ledger"] = {"nt": "LG_C07", "mc_cfg":
 PROPS["C06"]["families"] = [PROPS["C06"].pop("family"), "src"]
 PROPS["C06"]["formulas"] = PROPS["C06"]["formulas"] + ["C06_TimeSource"]
 PROPS["C06"].setdefault("per_family", {})["src"] = {"nt": "C06src", "pair": False, "bug_variants": []}
+# C17 at whole-application level (creators in lower- and upper-case spellings, all modules interleaved)
+PROPS["C17"]["families"] = [PROPS["C17"].pop("family"), "ledger"]
+PROPS["C17"]["formulas"] = PROPS["C17"]["formulas"] + ["LG_Files"]
+PROPS["C17"].setdefault("per_family", {})["ledger"] = {"nt": "LG_C17", "mc_cfg": {"quick": ["Ledger-mc-quick.cfg"], "thorough": ["Ledger-mc-quick.cfg"]}, "bug_variants": []}
 # C11 (resource clause at whole-application level): auth records of accounts change only by their own signed transactions
 PROPS["C11"]["families"] = PROPS["C11"]["families"] + ["ledger"]
 PROPS["C11"]["formulas"] = PROPS["C11"]["formulas"] + ["LG_Auth"]
